@@ -58,6 +58,7 @@ type result struct {
 	Panics         []string         `json:"panics"`
 	PanicCount     int64            `json:"panicCount"`
 	InternalPanics int64            `json:"internalPanics"`
+	InternalEntry  int64            `json:"internalEntry"`
 	InternalFirst  []string         `json:"internalFirst"`
 	Deadlock       bool             `json:"deadlock"`
 	Stuck          string           `json:"stuck,omitempty"`
@@ -106,7 +107,11 @@ func (countingLogger) Error(err error, msg string, kv ...interface{}) {
 	if strings.Contains(msg, "panic") {
 		mu.Lock()
 		res.InternalPanics++
-		if len(res.InternalFirst) < 3 {
+		entrySide := strings.Contains(msg, "SlotChain.Entry")
+		if entrySide {
+			res.InternalEntry++
+		}
+		if len(res.InternalFirst) < 3 || (entrySide && res.InternalEntry <= 2) {
 			s := fmt.Sprintf("%s: %v", msg, err)
 			if len(s) > 1500 {
 				s = s[:1500]
@@ -242,7 +247,11 @@ func main() {
 			}
 		}
 		if b != nil {
-			count(res.Outcomes, name+":block")
+			id := ""
+			if rl, ok := b.TriggeredRule().(*flow.Rule); ok {
+				id = ":" + rl.ID
+			}
+			count(res.Outcomes, name+":block"+id)
 			return
 		}
 		count(res.Outcomes, name+":pass")
